@@ -664,8 +664,14 @@ TwoTouch(e, k) ==
                                          ELSE LET j == ((i + d - 1) % n) + 1 IN IF On(j) THEN i ELSE j
                     IN  f[n]
   IN  \E i \in 1..n : StrictIn(i) /\ NextOff(i) # i /\ StrictIn(NextOff(i))
+\* ... or shares two or more of its vertices with the parent's boundary (exactly on it): the vertex walk of
+\* path1InsidePath2 skips such vertices, and the decision then hangs on the one or two that are left or on the
+\* mid-point of the bounds
+SharedVertices(e, k) ==
+  LET T == e.tree  q == T[k].poly  par == T[T[k].parent].poly IN
+  Cardinality({i \in 1..Len(q) : \E j \in 1..Len(par) : OnSeg(q[i], par[j], Nxt(par, j))}) >= 2
 ContainedInParents(e) ==
-  \A k \in 1..Len(e.tree) : e.tree[k].parent # 0 => (NodeContained(e, k) \/ TwoTouch(e, k))
+  \A k \in 1..Len(e.tree) : e.tree[k].parent # 0 => (NodeContained(e, k) \/ TwoTouch(e, k) \/ SharedVertices(e, k))
 
 TreeOpOK(e, idx) ==
   /\ Chk("OUT", idx, OutOK(e))
